@@ -1,0 +1,5 @@
+//go:build !verif
+
+package device
+
+func (device *Device) verifPoolsInit() {}
